@@ -244,6 +244,12 @@ Section HeapP6.
       intros a Ha. rewrite Rl, A2 in Ha. exact (Fz a Ha).
     Qed.
 
+    Lemma abs_comp_group (h : heap) d a lst m1 m2 hi ho :
+      hget h a = Some (CComp (HGroup lst m1 m2 hi ho)) ->
+      abs_comp (S d) h a = Group (map (abs_comp d h) (rd_list h lst)) m1 m2 (rd_dict h hi) (rd_dict h ho) /\
+      comp_cells (S d) h a = a :: lst :: hi :: ho :: flat_map (comp_cells d h) (rd_list h lst).
+    Proof. intros E. cbn [abs_comp comp_cells]. rewrite E. split; reflexivity. Qed.
+
     Lemma is_group_depth (h : heap) a : is_group (abs_comp 1 h a) = is_group (abs_comp 2 h a).
     Proof. cbn [abs_comp]. destruct (hget h a) as [[[| | | | | |]| | |]|]; reflexivity. Qed.
 
@@ -348,7 +354,7 @@ Section HeapP6.
       destruct (halloc_inv _ _ _ _ [] h0 E5 W4 (Forall_nil _) F04) as (-> & N5 & W5 & F05 & G5 & S5).
       destruct (halloc h5 (CDict (rd_dict h5 (hc_xin w)))) as [h6 xo'] eqn:E6.
       destruct (halloc_inv _ _ _ _ [] h0 E6 W5 (Forall_nil _) F05) as (-> & N6 & W6 & F06 & G6 & S6).
-      set (w1 := mkHC (hc_n w) (hc_spec w) (hc_in w) (h_next h4) (hc_xin w) (h_next h5) (hc_int w)).
+      set (w1 := mkHC (c_n w0f) (hc_spec w) (hc_in w) (h_next h4) (hc_xin w) (h_next h5) (hc_int w)).
       assert (Ag46 : agree h4 h6) by (apply hframe_agree; eapply hframe_trans; eassumption).
       assert (R0 : wrel h6 w1 (rd_list h6 (hc_spec w1)) (add_w1 w0f) (add_sp0 w0f)).
       { split; [exact F06|]. split; [exact W6|]. split.
@@ -363,7 +369,7 @@ Section HeapP6.
           change (bookf (abs_circ h4 w) = bookf (add_w1 w0f)) || idtac.
           assert (Bk : book h4 w = bookf (set_spec w0f (add_sp0 w0f))) by (rewrite <- A4; reflexivity).
           unfold book, bookf, set_spec in Bk. cbn [c_n c_in c_out c_xin c_xout c_int] in Bk.
-          injection Bk as B1 B2 B3 B4 B5 B6. rewrite B1, B2, B4, B6. reflexivity. }
+          injection Bk as B1 B2 B3 B4 B5 B6. rewrite B2, B4, B6. reflexivity. }
         split.
         { rewrite Rl. rewrite (proj1 (abs_list_stable h4 h6 _ W4 Ag46 (rd_list_below h4 _ W4))).
           change (c_spec (abs_circ h4 w) = add_sp0 w0f). rewrite A4. reflexivity. }
@@ -426,7 +432,7 @@ Section HeapP6.
       assert (Rl10 : rd_list h10 (hc_spec c') = rd_list h9 (hc_spec c')).
       { destruct (cwf_fields h9 c' C9) as (L1 & _). apply (rd_list_agree h9 h10 _ Ag910 L1). }
       assert (Fz10 : forall a, In a (spec_cells h10 (rd_list h10 (hc_spec c'))) -> ~ owned p a /\ ~ In a (priv c')).
-      { intros a Ha. unfold reach in R10. apply app_inv_head in R10. rewrite Rl10 in Ha. rewrite R10 in Ha. exact (Fz9 a Ha). }
+      { intros a Ha. unfold reach in R10. apply app_inv_head in R10. rewrite R10 in Ha. exact (Fz9 a Ha). }
       (* where the private cells of the parent come from *)
       assert (Prov : forall a, In a (priv c') -> In a (priv c) \/ h_next h0 <=p a).
       { intros a Ha. destruct Dj9 as [->|(Fr & _)]; [left; exact Ha|right].
@@ -465,7 +471,7 @@ Section HeapP6.
         assert (Rl13 : rd_list h13 (hc_spec c') = rd_list h10 (hc_spec c')).
         { destruct (cwf_fields h10 c' C10) as (L1 & _). apply (rd_list_agree h10 h13 _ Ag1013 L1). }
         assert (Fz13 : forall a, In a (spec_cells h13 (rd_list h13 (hc_spec c'))) -> ~ owned p a /\ ~ In a (priv c')).
-        { intros a Ha. unfold reach in R13. apply app_inv_head in R13. rewrite Rl13 in Ha. rewrite R13 in Ha. exact (Fz10 a Ha). }
+        { intros a Ha. unfold reach in R13. apply app_inv_head in R13. rewrite R13 in Ha. exact (Fz10 a Ha). }
         set (gc := CComp (HGroup (h_next h10) m (m + hc_n w2 - 1) (h_next h11) (h_next h12))).
         set (h14 := fst (halloc h13 gc)).
         assert (G14 : hget h14 (h_next h13) = Some gc) by (unfold h14; rewrite hget_alloc, Pos.eqb_refl; reflexivity).
@@ -507,10 +513,10 @@ Section HeapP6.
           split; [apply map_ext_in|apply flat_map_ext_in]; intros a Ha; symmetry; apply (nongroup_depth h14 a (Gm a Ha)). }
         destruct Mem as (Mem1 & Mem2).
         assert (Eg : abs_comp 2 h14 (h_next h13) = Group (shift_spec m spf) m (m + c_n w2f - 1) (c_in w2f) (c_in w2f)).
-        { cbn [abs_comp]. rewrite G14. unfold gc. rewrite Rlst, Rgi, Rgo, Mem1, K1'. reflexivity. }
+        { rewrite (proj1 (abs_comp_group h14 1 _ _ _ _ _ _ G14)). rewrite Rlst, Rgi, Rgo, Mem1, K1'. reflexivity. }
         assert (Cg : comp_cells 2 h14 (h_next h13) =
                      h_next h13 :: h_next h10 :: h_next h11 :: h_next h12 :: spec_cells h10 add_cs).
-        { cbn [comp_cells]. rewrite G14. unfold gc. rewrite Rlst, Mem2. reflexivity. }
+        { rewrite (proj2 (abs_comp_group h14 1 _ _ _ _ _ _ G14)). rewrite Rlst, Mem2. reflexivity. }
         assert (Lsp : hc_spec c' <p h_next h10) by (destruct (cwf_fields h10 c' C10) as (L1 & _); exact L1).
         destruct (append_entry_gen h13 c' gc W13 C13 Sp9) as (J1 & J2 & J3 & J4 & J5).
         + intros a Ha E. apply (proj2 (Fz13 a Ha)). rewrite E. unfold priv; simpl; auto.
